@@ -53,6 +53,23 @@ func TrustCond(chain []byte, pool []*x509.Certificate) (ok bool, why string) {
 	if leaf.Subject.CommonName != "Intel SGX PCK Certificate" {
 		return false, "leaf is not a PCK-role certificate (CN " + leaf.Subject.CommonName + ")"
 	}
+	// a certificate whose issuer restricted it to purposes that have nothing to do with attestation is a
+	// certificate of another role, whatever its name says (a restriction to TLS server use or to "any" use is
+	// not judged: the statement does not settle those)
+	for _, c := range []*x509.Certificate{leaf, inter} {
+		if len(c.ExtKeyUsage)+len(c.UnknownExtKeyUsage) == 0 {
+			continue
+		}
+		open := false
+		for _, u := range c.ExtKeyUsage {
+			if u == x509.ExtKeyUsageAny || u == x509.ExtKeyUsageServerAuth {
+				open = true
+			}
+		}
+		if !open {
+			return false, "certificate issued for another purpose (extended key usage) in the chain"
+		}
+	}
 	if !SignedByKeyOf(leaf, inter) {
 		return false, "leaf not signed by the quote's intermediate"
 	}
